@@ -239,6 +239,9 @@ func judgeMsg(c c19case, limit int, msg string, reported bool, pan any) (key, de
 		if c.ReadErr && len(ex) > 0 {
 			return "render/excerpt-without-source", "excerpt rendered although the file is unreadable"
 		}
+		if !strings.HasSuffix(help, ".html") {
+			return "render/help-missing-without-excerpt", "no documentation link in a message without excerpt: " + strconv.Quote(msg)
+		}
 		if !c.ReadErr && len(ex) > 0 {
 			return "render/excerpt-without-source/shorter-file", fmt.Sprintf("the file on disk has %d lines, the diagnostic is on line %d, yet an excerpt (without that line) is rendered: %s", len(c.DiskLines), c.Line, strconv.Quote(msg))
 		}
